@@ -323,6 +323,48 @@ def S(k, c=0):
     return ('s', c, k)
 
 
+FAMILY_HASH = 777
+OUTER_HASH = 888
+
+
+def family_entry_types():
+    vec = lambda t: ('seq', ('vec',), t)
+    s2 = ('tup', 'struct', [S('u8'), ('str', 1), ('opt', S('i64'))])
+    s2t = ('tup', 'struct', [('wrap', 9, S('u8')), ('str', 1), ('opt', S('i64'))])   # member-wise fungible with s2
+    return {1: S('u32'), 2: ('str', 1), 3: vec(S('i16')), 4: s2, 5: ('opt', S('u8')), 6: S('f64'), '4t': s2t}
+
+
+def version_family():
+    """definitions of one table (same hash) that differ by added / removed /
+    deleted / reordered entries and by a fungible replacement of an entry type,
+    plus the same nested in a structure, a vector and another table's entry"""
+    E = family_entry_types()
+    a = lambda i: (i, True, E[i])
+    d = lambda i: (i, False, E[i])
+    V = [
+        [a(1), a(2), a(3)],
+        [a(1), a(2), a(3), a(4)],
+        [a(1), a(3)],
+        [a(1), d(2), a(3)],
+        [a(3), a(2), a(1)],
+        [a(1), a(2), a(3), a(4), a(5), a(6)],
+        [a(6), d(1), a(5)],
+        [a(2)],
+        [a(4), d(3), a(2), a(1)],
+        [a(1), (4, True, E['4t'])],
+        [a(1), a(2), a(3), a(5)],
+        [a(5), a(6), a(4), d(2)],
+    ]
+    tabs = [('tab', FAMILY_HASH, es) for es in V]
+    out = list(tabs)
+    st = lambda *ts: ('tup', 'struct', list(ts))
+    vec = lambda t: ('seq', ('vec',), t)
+    out += [st(tabs[0], S('u16')), st(tabs[1], S('u16')), vec(tabs[0]), vec(tabs[2]),
+            ('tab', OUTER_HASH, [(1, True, tabs[0]), (2, True, S('u8'))]),
+            ('tab', OUTER_HASH, [(2, True, S('u8')), (1, True, tabs[1])])]
+    return out
+
+
 def core_pool():
     """Deterministic pool: every constructor x integer kind x integral/non-integral
     elements x small arities.  Returns a list of types."""
@@ -376,6 +418,7 @@ def core_pool():
     t3 = named_table('Verif.Outer', [(5, True, t1), (6, True, vec(t1)), (70000, True, S('i8'))])
     t4 = ('tab', 0, [(1, True, h0), (2, True, ('opt', S('u8')))])
     P += [t1, t2, t3, t4, st(t1, S('u16')), vec(t2)]
+    P += version_family()
     # finding K1: Optional/Result whose payload can itself start with NIL/ERR (not prefix-disjoint)
     P += [('opt', ('opt', S('u8'))), ('res', 1, 'i32', ('res', 2, 'u8', S('u8')))]
     return P
